@@ -37,6 +37,10 @@ func (Engine) Property() string { return "C19" }
 
 func (Engine) Gen(seed uint64, idx int, tier string) interface{} {
 	r := simrt.NewRand(simrt.Mix(seed, 0x19, uint64(idx)))
+	gen.Scale = 1
+	if tier == "thorough" && r.Chance(1, 2) {
+		gen.Scale = 2
+	}
 	sc := &Scenario{Prog: gen.GenImport(r, true), Contexts: 1, Order: simrt.MapOrder{Kind: r.Intn(4), K: r.Uint64()}, SSeed: r.Uint64(), PNum: 1 + r.Intn(50)}
 	if r.Chance(1, 4) && len(sc.Prog.Late) == 0 {
 		sc.Contexts = 2 // (files that appear at run time would be seen by both contexts: single context only)
